@@ -374,6 +374,82 @@ class Label(Harness):
         yield 'json-target', obs['json'] == host + ':' + pd
 
 
+def ssh1_pkm_packet():
+    """a well-formed SSH-1 SMSG_PUBLIC_KEY packet (independent encoder: RFC-less protocol 1.5 framing: length, 1..8 bytes padding, type, data, CRC-32)"""
+    import struct, zlib
+
+    def mp1(v):
+        bits = v.bit_length()
+        return struct.pack('>H', bits) + v.to_bytes((bits + 7) // 8, 'big')
+    data = b'\x11' * 8 + struct.pack('>I', 768) + mp1(0x10001) + mp1((1 << 767) | 1) + struct.pack('>I', 1024) + mp1(0x10001) + mp1((1 << 1023) | 1) \
+        + struct.pack('>I', 2) + struct.pack('>I', 0x48) + struct.pack('>I', 0x0C)
+    payload = bytes([2]) + data
+    plen = len(payload) + 4
+    pad = b'\x00' * (8 - plen % 8)
+    # SSH-1 uses the plain CRC-32 polynomial without the final inversion and with a zero seed
+    crc = (zlib.crc32(pad + payload, 0xFFFFFFFF) ^ 0xFFFFFFFF) & 0xFFFFFFFF
+    return struct.pack('>I', plen) + pad + payload + struct.pack('>I', crc)
+
+
+class FallbackLabel(Harness):
+    """a listed target that only speaks SSH-1: the first connection is answered with the plain-text version-mismatch line, the retry with an SSH-1 public-key
+    message.  The worker's block for it is an SSH-1 report labelled with this target (host and symbolic port)."""
+    prop, ob = PROP, 'O4'
+    width = 64
+
+    def __init__(self, nport):
+        self.nport = nport
+        self.name = 'fallbacklabel-p%d' % nport
+
+    def params(self):
+        return {'nport': self.nport}
+
+    def inputs(self):
+        pd = zx.fresh_str('pd', self.nport, DIG)
+        if self.nport > 1:
+            zx.cur().assume(s_not(pd.startswith('0')))
+        return {'pd': pd}
+
+    def run(self, M, inp):
+        port = z_int(inp['pd'])
+        if zx.active():
+            zx.cur().assume(s_and(port >= 1, port <= 65535))
+            zx.cur().stdout = []
+        elif not 1 <= port <= 65535:
+            return {'skip': True}
+        net = AE.FakeNet([AE.Conn([b'SSH-2.0-x\r\n', b'Protocol major versions differ.\n'], 'close'), AE.Conn([b'SSH-1.5-old\r\n', ssh1_pkm_packet()], 'close')])
+        aconf = M.auditconf.AuditConf('', 22)
+        aconf.skip_rate_test = True
+        aconf.colors = False
+        aconf.target_list = ['a', 'b']
+        OL.fresh_tables(M)
+        import io, contextlib
+        buf = io.StringIO()
+        with AE.patched(M.ssh_socket, socket=net), contextlib.redirect_stdout(buf):
+            r = guarded(M.ssh_audit.target_worker_thread, 'legacy', port, aconf)
+        if isinstance(r, Exc):
+            return {'exc': r}
+        ret, text = r
+        lines = text.split('\n')
+        return {'ret': ret, 'label': [ln for ln in lines if OL._starts(ln, '(gen) target: ')], 'ssh1_report': any(OL._starts(ln, '(key) ') or OL._starts(ln, '(enc) ') for ln in lines),
+                'nconn': len(net.made)}
+
+    def check(self, inp, obs):
+        if 'skip' in obs:
+            return
+        if 'exc' in obs:
+            yield 'no-exception', False
+            return
+        yield 'ssh1-report-produced-after-one-retry', obs['ssh1_report'] and obs['nconn'] == 2
+        pd = inp['pd']
+        is22 = z_int(pd) == 22
+        lab = obs['label']
+        ok = len(lab) == 1
+        if ok:
+            ok = s_or(s_and(is22, lab[0] == '(gen) target: legacy'), s_and(s_not(is22), lab[0] == '(gen) target: legacy:' + pd))
+        yield 'block-labelled-with-its-target', ok
+
+
 class MainRun(Harness):
     """real main(): stubbed argparse/open -> real process_commandline -> real target loop -> real target_worker_thread / audit() -> real SSH_Socket on a
     recording network.  The (host, port) pairs handed to the resolver and dialled, in target order, equal the targets as written (one worker at a time)."""
@@ -514,6 +590,8 @@ def tasks(tier):
                    ('host', 'host:port', 'host', 'host:port', 'host')]):
         for with_p in (False, True):
             T.append(MainRun(shape, with_p, 2))
+    for np_ in ((2, 5) if q else (1, 2, 3, 4, 5)):
+        T.append(FallbackLabel(np_))
     for shape, nd in [(('host', 'badport'), 5), (('badport', 'host'), 5), (('host:port', 'badport', 'host'), 6), (('host', 'badport'), 1)]:
         T.append(MainRun(shape, False, nd))
     for shape in ([('cmd-host:port',), ('host:port', 'host')] if q else
@@ -538,6 +616,8 @@ def harness_by_name(name, params):
         return Resolve(p['pref'], p['nans'], p.get('host', 'example'))
     if k == 'label':
         return Label(p['hi'], p['nport'])
+    if k == 'fallbacklabel':
+        return FallbackLabel(p['nport'])
     if k == 'mainrun':
         return MainRun(p['shape'], p['with_p'], p.get('nport', 2))
     raise KeyError(name)
